@@ -57,6 +57,10 @@ def cursor_model(trees_quick, trees_thorough, sample_quick, extend_quick):
                     steps = re.findall(r'<<"(\w+)", (\d+), (-?\d+), (\d+)>>', body)
                     hists.append([[a, int(b), int(c), int(d)] for a, b, c, d in steps])
             nstates = len(hists)
+            # states reached by a relative move that had to load blocks (it crossed a data block and,
+            # with >= 2 loads, an index block): the operations tried from them are the ones whose
+            # answer depends on what the relative move left behind
+            crossing = [h for h in hists if h and h[-1][0] in ("next", "prev") and h[-1][3] >= 2]
             if tier == "quick" and len(hists) > sample_quick:
                 hists = rnd.sample(hists, sample_quick)
             hists.sort(key=len)
@@ -65,7 +69,7 @@ def cursor_model(trees_quick, trees_thorough, sample_quick, extend_quick):
             # histories replayed as they are ...
             docs = [("plain", hists, [])]
             # ... and (a subset in quick, all in thorough) with every operation x probe tried from the state reached
-            ext = hists if tier == "thorough" else rnd.sample(hists, min(extend_quick, len(hists)))
+            ext = hists if tier == "thorough" else (crossing[:40] + rnd.sample(hists, min(extend_quick, len(hists))))
             docs.append(("extend", ext, ["--extend"]))
             for tag, hs, extra in docs:
                 dd = os.path.join(d, tag)
@@ -86,9 +90,8 @@ def cursor_model(trees_quick, trees_thorough, sample_quick, extend_quick):
                 if not cov["samples"]:
                     cov["samples"].append(dict(family="hist-t%d" % t, first_lines=sample_scenario(dd, "hist")))
                 for rej in res["rejected"]:
-                    p = file_violation(prop, rej, dict(module="TraceCursor", cfg="TraceCursor.cfg", family="hist", tree=t))
-                    with open(os.path.join(p, "histories.json"), "w") as f:
-                        json.dump({"corner": t, "hists": hs}, f)
+                    p = file_violation(prop, rej, dict(module="TraceCursor", cfg="TraceCursor_C16.cfg" if prop == "C16" else "TraceCursor.cfg",
+                                                       family="hist", tree=t, input=os.path.join(dd, "h.json"), extra=extra))
                     viol.append((p, "%s (history derived from the CursorImpl model of tree t%d) rejected at event %s" % (rej["scn"], t, rej["ev"])))
             cov["states"] += r["states"]; cov["transitions"] += r["generated"]
             cov["evaluations"] += r["states"]; cov["distinct_nontrivial"] += r["states"]
@@ -141,7 +144,7 @@ def writer_model(cfgs, num_quick, num_thorough):
             if not cov["samples"]:
                 cov["samples"].append(dict(family="wseq-" + name, first_lines=sample_scenario(d, "wseq", maxlines=4)))
             for rej in res["rejected"]:
-                p = file_violation(prop, rej, dict(module="TraceLayout", cfg="TraceLayout_all.cfg", family="wseq", name=name))
+                p = file_violation(prop, rej, dict(module="TraceLayout", cfg="TraceLayout_all.cfg", family="wseq", name=name, input=os.path.join(d, "w.json")))
                 viol.append((p, "%s (insert sequence generated from the WriterImpl model) rejected at event %s" % (rej["scn"], rej["ev"])))
         return cov, viol
     return run
@@ -180,7 +183,7 @@ def merger_model(sample_quick):
                    samples=[dict(family="mrun", first_lines=sample_scenario(d, "mrun", maxlines=8))])
         viol = []
         for rej in res["rejected"]:
-            p = file_violation(prop, rej, dict(module="TraceMerger", cfg="TraceMerger.cfg", family="mrun"))
+            p = file_violation(prop, rej, dict(module="TraceMerger", cfg="TraceMerger.cfg", family="mrun", input=os.path.join(d, "m.json"), extra=["--seed", str(seed)]))
             viol.append((p, "%s (overlap pattern from the Merger model) rejected at event %s" % (rej["scn"], rej["ev"])))
         return cov, viol
     return run
@@ -225,7 +228,7 @@ def sorter_model(cfgs, num_quick, num_thorough):
             if not cov["samples"]:
                 cov["samples"].append(dict(family="sseq-" + name, first_lines=sample_scenario(d, "sseq", maxlines=6)))
             for rej in res["rejected"]:
-                p = file_violation(prop, rej, dict(module="TraceAlloc", cfg="TraceAlloc.cfg", family="sseq", name=name))
+                p = file_violation(prop, rej, dict(module="TraceAlloc", cfg="TraceAlloc.cfg", family="sseq", name=name, input=os.path.join(d, "s.json")))
                 viol.append((p, "%s (size sequence generated from the Sorter model) rejected at event %s" % (rej["scn"], rej["ev"])))
         return cov, viol
     return run
